@@ -1,6 +1,7 @@
 package main
 
 import (
+	"crypto/sha256"
 	"fmt"
 	"go/ast"
 	"go/importer"
@@ -10,6 +11,7 @@ import (
 	"maps"
 	"os"
 	"path/filepath"
+	"slices"
 	"strings"
 	"sync"
 
@@ -132,12 +134,32 @@ func parseFiles(lpkg *listedPackage, dir string, paths []string, mainPatch bool)
 	return files, nil
 }
 
+// pkgCacheID is the cache key of a package's pkgCache entry. The entry is deep: it
+// holds the obfuscated names of the reflected objects of all transitive dependencies,
+// and those names follow each dependency's own action ID. A dependency can get a new
+// action ID without ours changing, for example after a comment-only edit which leaves
+// its export data intact, so the key must cover the dependencies as well.
+func pkgCacheID(lpkg *listedPackage) [sha256.Size]byte {
+	lpkg.hasDep("") // fill allDeps
+	hasher := sha256.New()
+	hasher.Write(lpkg.GarbleActionID[:])
+	hasher.Write([]byte("\x00pkg-cache-deps-v1\x00"))
+	for _, path := range slices.Sorted(maps.Keys(lpkg.allDeps)) {
+		if dep, ok := sharedCache.ListedPackages.get(path); ok {
+			hasher.Write(dep.GarbleActionID[:])
+		}
+	}
+	var sum [sha256.Size]byte
+	hasher.Sum(sum[:0])
+	return sum
+}
+
 func loadPkgCache(lpkg *listedPackage, pkg *types.Package, files []*ast.File, info *types.Info, ssaPkg *ssa.Package) (pkgCache, error) {
 	fsCache, err := openCache()
 	if err != nil {
 		return pkgCache{}, err
 	}
-	filename, _, err := fsCache.GetFile(lpkg.GarbleActionID)
+	filename, _, err := fsCache.GetFile(pkgCacheID(lpkg))
 	// Already in the cache; load it directly.
 	if err == nil {
 		data, err := os.ReadFile(filename)
@@ -185,7 +207,7 @@ func computePkgCache(fsCache *cache.Cache, lpkg *listedPackage, pkg *types.Packa
 			continue // nothing to load
 		}
 		if err := func() error { // function literal for the deferred close
-			if filename, _, err := fsCache.GetFile(lpkg.GarbleActionID); err == nil {
+			if filename, _, err := fsCache.GetFile(pkgCacheID(lpkg)); err == nil {
 				// Cache hit; merge its entries into computed. We decode into a
 				// fresh value rather than onto computed, as msgp replaces maps
 				// rather than merging into them.
@@ -244,7 +266,7 @@ func computePkgCache(fsCache *cache.Cache, lpkg *listedPackage, pkg *types.Packa
 	if err != nil {
 		return pkgCache{}, err
 	}
-	if err := fsCache.PutBytes(lpkg.GarbleActionID, data); err != nil {
+	if err := fsCache.PutBytes(pkgCacheID(lpkg), data); err != nil {
 		return pkgCache{}, err
 	}
 	return computed, nil
